@@ -159,7 +159,7 @@ def _enumerate(ctx: core.Ctx, shard: int, nshards: int, maxlen: int, stride: int
 
 @st.composite
 def longer(draw):
-    r = draw(st.randoms(use_true_random=False))
+    r = core.rng(draw)
     n = r.randint(4, 8)
     # bias towards balanced structures so that many sequences parse
     seq: list = []
@@ -184,7 +184,7 @@ def longer(draw):
 
 @st.composite
 def valid_templates(draw):
-    r = draw(st.randoms(use_true_random=False))
+    r = core.rng(draw)
     extra = r.random() < 0.5
     nodes = list(gg.STD_NODES) + (gg.EXTRA_NODES if extra else [])
     prof = gg.Profile(nodes=nodes, partials=["p"], dynamic_partial_names=False)
